@@ -240,6 +240,14 @@ def valid_variations(data):
         d[space]['objects'] = list(reversed(d[space]['objects']))
         d[space]['colors'] = list(reversed(d[space]['colors']))
     out.append(('lists (transitions, rewards, declared objects and colours) in reverse order', d))
+    # the action list is an *ordered* description (index i of the gym adapter is the i-th listed action)
+    listed = list(data.get('action_space') or [a.name for a in Action])
+    d = copy.deepcopy(data)
+    d['action_space'] = list(reversed(listed))
+    out.append(('action list in reverse order', d))
+    d = copy.deepcopy(data)
+    d['action_space'] = [listed[i] for i in range(len(listed)) if i % 2 == 1] + [listed[0]]
+    out.append(('action sub-list, first listed action last', d))
     term = data['terminating_function']
     d = copy.deepcopy(data)
     d['terminating_function'] = {'name': 'reduce_any', 'terminating_functions': [copy.deepcopy(term)]}
